@@ -91,6 +91,10 @@ def c181(ctx):
         g = true_edge_guard(f, pt, r"WaitGuard::is_head$")
         cg = [x for x in K.compare_guards(f, pt)]
         ctx.check(R, f, "leader-is-head", g is not None, "the core is taken only by the head of the wait list", "a non-head waiter can take the core", pt=pt)
+    # the count of batched waiters: the variable handed to core.work(taken, ..)
+    taken_locals = set()
+    for w in work:
+        taken_locals |= K.user_locals(f, P.term_at(f, w)["args"][1])
     # batching loop: batch before Stolen; first always taken
     batch = ctx.calls(R, f, r"WorkCoalescingCore::batch$|::batch$")
     batch = [p for p in batch if "WorkCoalescingCore" in (P.term_at(f, p).get("trait") or P.term_at(f, p).get("decl") or "")]
@@ -100,12 +104,12 @@ def c181(ctx):
         cb = K.guarded_by_call(f, b, r"::can_batch$")
         # `taken == 0 || can_batch`: batch is reachable through the taken==0 true edge without can_batch
         via_zero = any(P.reach(f, [(dict(f.blocks[bb].succs)["sw:1"], 0)], [b], avoid=set(P.call_points(f, r"::can_batch$")))
-                       for bb in [blk.idx for blk in P.switch_blocks(f) if any(s["k"] == "bin" and s["op"] == "Eq" and "taken" in K.var_names(f, s["st"]["rv"]["a"]) for s in K.cond_sources(f, blk.idx))])
+                       for bb in [blk.idx for blk in P.switch_blocks(f) if any(s["k"] == "bin" and s["op"] == "Eq" and bool(K.user_locals(f, s["st"]["rv"]["a"]) & taken_locals) for s in K.cond_sources(f, blk.idx))])
         ctx.check(R, f, "first-always-taken", via_zero, "the first waiter is batched without consulting can_batch (taken == 0 ||)",
                   "the head's own input can be refused by can_batch (it would never get an output)", pt=b)
     # the outputs are handed to exactly the taken waiters
     tk = P.call_points(f, r"Iterator::take$|iterator::Iterator>::take$")
-    ctx.check(R, f, "outputs-to-taken", any("taken" in K.var_names(f, P.term_at(f, p)["args"][1]) for p in tk),
+    ctx.check(R, f, "outputs-to-taken", any(K.user_locals(f, P.term_at(f, p)["args"][1]) & taken_locals for p in tk),
               "outputs are zipped with waiter.iter().take(taken)", "outputs are not distributed to exactly the taken waiters")
 
 
